@@ -96,7 +96,8 @@ def float_roundtrips(piece) -> bool:
     if piece.kind != "fmt":
         return False
     if piece.conv == "r":
-        return True
+        # the text of repr is then formatted as a string: a precision truncates it (the longest repr of a float has 24 characters)
+        return piece.spec.prec is None or piece.spec.prec >= 24
     sp = piece.spec
     if sp.type in ("e", "E", "g", "G") and (sp.prec or 0) >= 17:
         return True
